@@ -455,7 +455,8 @@ def _run_variant(runner, var, script, mod, fn, rec):
                         raw = s["focus"] == "$x"
                         p = probing(sel_text(runner.name, s), env=env, raw=raw)
                         if raw:
-                            p.subscribe(lambda d, i=i: streams[i].append(sorted([c.name, rt2.enc(c.value)] for c in d.values())))
+                            # the events are kept as delivered and read once the call is over: what was delivered must not change
+                            p.subscribe(lambda d, i=i: streams[i].append(d))
                         else:
                             p.subscribe(lambda d, i=i: streams[i].append(sorted([k, rt2.enc(v)] for k, v in d.items())))
                         st.enter_context(p)
@@ -465,7 +466,7 @@ def _run_variant(runner, var, script, mod, fn, rec):
                     rec["act_err"] = type(ex).__name__
                     return rec
                 rec["log"], rec["result"] = runner.call(mod, fn, script)
-            rec["streams"] = streams
+            rec["streams"] = [[sorted([c.name, rt2.enc(c.value)] for c in d.values()) if isinstance(d, dict) else d for d in st] for st in streams]
     except (rt2.NeedDecision, rt2.BadScript) as ex:
         # the instrumented program asked for a decision the reference path does not have: it diverged
         rec["log"] = [sval(e) for e in rt2.LOG]
